@@ -1,5 +1,5 @@
-From RsdnsModel Require Import Base GenReader GenTypes Cursor Names Labels Header Tracker RData Reader Script.
-From RsdnsModel.Proofs Require Import CursorSafe LabelsTotal NoUB Defined ReaderTotal.
+From RsdnsModel Require Import Base GenReader GenTypes Cursor Names Labels Header Tracker RData Reader Script RecordSet Iter.
+From RsdnsModel.Proofs Require Import CursorSafe LabelsTotal NoUB Defined ReaderTotal FromMsgTotal IterTotal.
 From RsdnsModel.Properties Require Import C01.
 Open Scope N_scope.
 Check (C01_name_walk_total : forall msg nk c, cwf msg c ->
@@ -36,4 +36,13 @@ Check (C01_reader_total : forall msg r, RInv msg r ->
   (forall s, s < 3 -> rgood msg (rd_seek msg s r)) /\
   (defined (rd_questions_count r) /\ defined (rd_records_count r) /\ forall s, defined (rd_records_count_in s r)) /\
   (forall ty mk, defined (rd_bytes_at msg mk r) /\ defined (rd_data_at msg ty mk r) /\ defined (rd_name_ref_at mk r))).
-Print Assumptions C01_name_walk_total. Print Assumptions C01_name_walk_bound. Print Assumptions C01_never_out_of_bounds. Print Assumptions C01_cursor_total. Print Assumptions C01_rdata_total. Print Assumptions C01_borrowed_names_total. Print Assumptions C01_reader_start. Print Assumptions C01_reader_total.
+Check (C01_record_set_total : forall msg ty, In ty data_types -> defined (from_msg msg ty)).
+Check (C01_iterator_total : forall msg,
+  defined (iter_new msg) /\
+  forall h off, iter_new msg = Ok (h, off) ->
+    match snd (iter_questions msg h) with
+    | None => True
+    | Some r => defined r /\ forall q, r <> Ok q
+    end /\
+    defined (iter_records msg h off)).
+Print Assumptions C01_name_walk_total. Print Assumptions C01_name_walk_bound. Print Assumptions C01_never_out_of_bounds. Print Assumptions C01_cursor_total. Print Assumptions C01_rdata_total. Print Assumptions C01_borrowed_names_total. Print Assumptions C01_reader_start. Print Assumptions C01_reader_total. Print Assumptions C01_record_set_total. Print Assumptions C01_iterator_total.
